@@ -281,8 +281,16 @@ where
         stream.read_exact(&mut [0u8, 0]).ok()?;
         None
     } else {
-        let mut content_buf: Vec<u8> = vec![0u8; length];
-        stream.read_exact(&mut content_buf).ok()?;
+        // The claimed chunk size is not trusted: the buffer only grows with the data actually received.
+        let mut content_buf: Vec<u8> = Vec::new();
+        stream
+            .by_ref()
+            .take(length as u64)
+            .read_to_end(&mut content_buf)
+            .ok()?;
+        if content_buf.len() != length {
+            return None;
+        }
         stream.read_exact(&mut [0u8, 0]).ok()?;
         Some(content_buf)
     }
